@@ -415,7 +415,29 @@ class Interp:
             return ints[0], refs[0]
         return None
 
+    def missed_fields(self, path):
+        """struct { key: <type parameter>, table: &mut Container }  (a vacant entry): its invariant is
+        Missed(key): the key was compared with every live key of the table and none matched"""
+        a = self.facts.adts.get(path)
+        if a is None or a['kind'] != 'Struct':
+            return None
+        fields = a['variants'][0]['fields']
+        keys = [i for i, f in enumerate(fields) if f['ty'].get('k') == 'param']
+        refs = [i for i, f in enumerate(fields) if f['ty'].get('k') == 'ref' and f['ty']['mut']
+                and f['ty']['to'].get('k') == 'adt' and f['ty']['to']['path'] in self.container_paths]
+        if len(keys) == 1 and len(refs) == 1 and len(fields) == 2:
+            return keys[0], refs[0]
+        return None
+
     def assume_struct_inv(self, st, v):
+        mf = self.missed_fields(v[1])
+        if mf is not None:
+            mid = self.map_of_ref(st, v[3][mf[1]])
+            kt = self.rtag(st, v[3][mf[0]])
+            if mid is not None:
+                ms = st.maps[mid]
+                ms.examined = (kt, 0, ms.len)
+            return
         si = self.struct_inv_fields(v[1])
         if si is None:
             return
@@ -1245,6 +1267,16 @@ class Interp:
                         return [(s, ('map', mid)) for s in sts]
                     return [(st, ('map', mid))]
                 val = ('adt', path, v['variant'], tuple(ops))
+                mf = self.missed_fields(path)
+                if mf is not None:
+                    mid = self.map_of_ref(st, ops[mf[1]])
+                    kt = self.rtag(st, ops[mf[0]])
+                    m = self.miss_complete(st, mid) if mid is not None else None
+                    ok = m is not None and (m == ('<empty>',) or tag_eq(st.zone, m, kt))
+                    self.oblig('STRUCTINV', ok, 'new ' + path.split('::')[-1],
+                               'a vacant entry is built for key %r although no completed scan of the whole live '
+                               'prefix for that key precedes it (scan seen: %r)' % (kt, m), 'unproven',
+                               sample='Missed(%r) established' % (kt,))
                 return [(st, val)]
             if kind == 'closure':
                 gs = st.fmeta[fid][1]
